@@ -198,6 +198,43 @@ def run(ctx):
     # the property itself, evaluated on the implementation: reader after writer is the identity
     # on the domain, and range violations raise
     prop_bad = []
+    # 'each reader accepts exactly the Kafka encoding of its type': an independent reading of the primitive decodings
+    # (harness/refprim.py) on every reader input above, on every negative length prefix shape, and on all 65536 error codes
+    from .. import refprim
+    ec_set = {int(e.value) for e in ErrorCode}
+    spec_inputs = [(name, b, got) for name, b, got in rcases]
+    tail = b"next field or message"
+    for name in ("read_legacy_string", "read_nullable_legacy_string"):
+        if name in pub_r:
+            for n in (-1, -2, -3, -7, -128, -129, -256, -32767, -32768, 0, 1, 21, 22):
+                b = struct.pack(">h", n) + tail
+                spec_inputs.append((name, b, call_reader(pub_r[name], b)))
+    for name in ("read_legacy_bytes", "read_nullable_legacy_bytes"):
+        if name in pub_r:
+            for n in (-1, -2, -3, -7, -129, -32769, -65536, -2**31, -2**31 + 1, 0, 1, 21, 22):
+                b = struct.pack(">i", n) + tail
+                spec_inputs.append((name, b, call_reader(pub_r[name], b)))
+    if "read_error_code" in pub_r:
+        for z in range(-2**15, 2**15):
+            b = struct.pack(">h", z) + b"\x5a"
+            spec_inputs.append(("read_error_code", b, call_reader(pub_r["read_error_code"], b)))
+    n_spec = 0
+    spec_bad = []
+    for name, b, got in spec_inputs:
+        want = refprim.spec_read(name, b, ec_set)
+        if want is None:
+            continue
+        n_spec += 1
+        if want[0] == "reject" and got[0] == "ok":
+            spec_bad.append({"function": name, "input": b.hex()[:200], "what": "accepted bytes that are not a Kafka encoding of the type",
+                             "returned": str(got[1])[:120], "left_unread": len(got[2])})
+        elif want[0] == "ok" and got[0] != "ok":
+            spec_bad.append({"function": name, "input": b.hex()[:200], "what": f"rejected a Kafka encoding of the type with {got[1]}"})
+        elif want[0] == "ok" and (got[1] != want[1] or got[2] != want[2]):
+            spec_bad.append({"function": name, "input": b.hex()[:200], "what": "decoded a different value or consumed a different number of bytes",
+                             "returned": str(got[1])[:120], "expected": str(want[1])[:120], "left_unread": len(got[2]), "expected_unread": len(want[2])})
+    spec_bad.sort(key=lambda x: len(x["input"]))
+    prop_bad += spec_bad[:6]
     # timestamps given in DST-observing zones (zoneinfo), in and around the repeated and the skipped hour, fold 0 and 1:
     # the writer emits the INSTANT's milliseconds (computed here by astimezone(UTC) and exact integer arithmetic)
     import datetime as _dt
@@ -401,6 +438,7 @@ def run(ctx):
                 "string/bytes at 126/127/128/16383/16384/32767 bytes, sub-millisecond durations; per reader: writer "
                 "outputs, truncated/extended/random strings; exhaustive sweeps (compared by CRC-32C of a canonical "
                 "serialisation) of 8/16-bit integers, varints from 0, all 1- and 2-byte reader inputs; distinct by (function, input)",
+        "reader_inputs_checked_against_independent_decoding": n_spec,
         "public_functions": len(pub_w) + len(pub_r), "modelled_functions": len([n for n in modelled if n in pub_w or n in pub_r]),
         "uncovered_functions": uncovered, "higher_order_functions_covered_by_codec_properties": sorted(HIGHER_ORDER & (set(pub_w) | set(pub_r))),
         "sweeps": [dict(kind=k, function=n, start=lo, count=c) for k, n, lo, c, _ in sweep_expect],
